@@ -192,6 +192,13 @@ Proof.
   intros H b f rest Hf Hb Hr. cbn [need] in Hf. cbn [app] in *. pose proof (H rest Hr b f Hf Hb) as H'. sub_S f Hf. rewrite H'. reflexivity.
 Qed.
 
+Lemma ok_optopt_some g d w v F : Ok g d w v F -> Ok (OptOpt g) d w v F.
+Proof. intros H b f rest Hf Hb Hr. cbn [need] in Hf. pose proof (H b f rest Hf Hb Hr) as H'. sub_S f Hf. rewrite H'. reflexivity. Qed.
+Lemma ok_optopt_none g d (F : list byte -> Prop) : (forall rest, F rest -> Rej g d rest) -> Ok (OptOpt g) d [] VNone F.
+Proof.
+  intros H b f rest Hf Hb Hr. cbn [need] in Hf. cbn [app] in *. pose proof (H rest Hr b f Hf Hb) as H'. sub_S f Hf. rewrite H'. reflexivity.
+Qed.
+
 (* sequences: an auxiliary statement about seq_run with accumulators, then the interface *)
 Definition OkSeq (gs : list G) (d : nat) (w : list byte) (vs : list val) (F : list byte -> Prop) : Prop :=
   forall b f rest acc used, need rk (Seq gs) d <= N.of_nat f -> (length (w ++ rest) < b)%nat -> F rest ->
@@ -413,6 +420,16 @@ Proof.
   destruct k as [|a k]; [discriminate|]. destruct w as [|b w]; [discriminate|]. cbn [class_rejects same_nocase].
   intros Hc Hs. apply andb_true_iff in Hs. destruct Hs as [Hab _]. exists b, w. split; [reflexivity|].
   rewrite forallb_forall in Hc. specialize (Hc b (lower_variants a b Hab)). apply negb_true_iff in Hc. exact Hc.
+Qed.
+
+Lemma same_nocase_refl w : same_nocase w w = true.
+Proof. induction w as [|a w IH]; [reflexivity|]. cbn [same_nocase]. unfold eq_nocase1. rewrite N.eqb_refl. exact IH. Qed.
+
+(* a keyword that differs from the input at some position both still have *)
+Lemma rej_tag_nc_mismatch s w rest d : nocase_mismatch s w = true -> Rej (Leaf (LTagNC s)) d (w ++ rest).
+Proof.
+  intros Hm b f Hf _. fuel_S f Hf. cbn [leaf_run].
+  rewrite (nocase_mismatch_scan eq_nocase1 s w w rest (or_intror eq_refl) Hm (same_nocase_refl w)). reflexivity.
 Qed.
 
 Lemma fails_on_sound : forall n g k, fails_on n g k = true ->
